@@ -20,12 +20,13 @@ namespace Lines
 
 /-! ### The four helpers.  A `position` is a `Cursor` whose `pos` field is `position::byte`. -/
 
-/-- `memory_input::at( p )`:  `return this->begin() + p.byte;` -/
-def atOff (p : Cursor) : Int := (p.pos : Int)
+/-- `memory_input::at( p )`:  `return this->begin() + ( p.byte - this->begin_byte() );` where `begin_byte()` is the byte
+    count that belongs to `begin()` — the initial byte counter the input was constructed (or restarted) with. -/
+def atOff (cx : Ctx) (p : Cursor) : Int := (p.pos : Int) - (cx.init.pos : Int)
 
 /-- `memory_input::begin_of_line( p )`:  `return at( p ) - ( p.column - 1 );`
     (`column` is never 0: the constructors assert it and every bump keeps it ≥ 1). -/
-def beginOfLineOff (p : Cursor) : Int := atOff p - ((p.col : Int) - 1)
+def beginOfLineOff (cx : Ctx) (p : Cursor) : Int := atOff cx p - ((p.col : Int) - 1)
 
 /-- `internal::until< internal::at< internal::eolf > >::match` on the sub-input of
     `end_of_line`:
@@ -54,9 +55,9 @@ def untilAtEolf (cx : Ctx) : Nat → St → Bool × St
     memory that is not the input (`size()` = `end - current` wraps around) — undefined
     behaviour, which the model does not give a value to. -/
 def endOfLineRun (cx : Ctx) (p : Cursor) : Option St :=
-  if atOff p ≤ (cx.inp.size : Int) then
-    let st0 : St := { cur := ⟨p.pos, 1, 1⟩, endp := cx.inp.size }
-    some (untilAtEolf cx (cx.inp.size - p.pos + 1) st0).2
+  if 0 ≤ atOff cx p ∧ atOff cx p ≤ (cx.inp.size : Int) then
+    let st0 : St := { cur := ⟨p.pos - cx.init.pos, 1, 1⟩, endp := cx.inp.size }
+    some (untilAtEolf cx (cx.inp.size - (p.pos - cx.init.pos) + 1) st0).2
   else none
 
 /-- `memory_input::end_of_line( p )` as an offset. -/
@@ -68,7 +69,7 @@ def endOfLineOff (cx : Ctx) (p : Cursor) : Option Int :=
     as (offset of `data()`, `size()`); the size is an `Int` so that a wrapped-around
     `size_t` shows as a negative number. -/
 def lineAtOff (cx : Ctx) (p : Cursor) : Option (Int × Int) :=
-  (endOfLineOff cx p).map (fun e => (beginOfLineOff p, e - beginOfLineOff p))
+  (endOfLineOff cx p).map (fun e => (beginOfLineOff cx p, e - beginOfLineOff cx p))
 
 /-- The bytes a `string_view` `(off, len)` denotes when it lies inside the data. -/
 def viewBytes (inp : Array UInt8) (v : Int × Int) : List UInt8 :=
